@@ -125,7 +125,29 @@ def run(ck, F):
                             if u[1] == "stmt" and u[3]["rv"]["k"] in ("use", "ref") and not u[3]["p"].get("proj"):
                                 aliases.add(u[3]["p"]["l"])
                 passed = any(u[1] == "term" and u[3].get("k") == "call" for a in aliases for u in M.uses_of_local(B, a))
-                if captured or passed:
+                # a selection by closure predicate (find/any/position/filter over a collection) must itself look at the namespace;
+                # handing it on to a fallback does not make the first selection namespace-aware
+                sel = [(bb, t) for bb, t in B.calls() if (M.Body.callee_decl(t) or "").endswith(
+                    ("iter::Iterator::find", "iter::Iterator::any", "iter::Iterator::position", "iter::Iterator::filter", "iter::Iterator::find_map",
+                     "iter::Iterator::rposition", "iter::Iterator::all"))]
+                sel_bad = []
+                COMPONENTS = {"nodes", "soap_messages", "soap_ports", "soap_bindings"}
+                for sbb, st in sel:
+                    src = M.trace(B, st["args"][0], M.IDENTITY_CALLS + ("[T]>::iter", "IntoIterator::into_iter", "Vec::<T, A>::iter"))
+                    over_components = any(set(o.fields()) & COMPONENTS for o in src) or any(
+                        o.kind == "call" and (M.Body.callee_decl(o.term) or "").endswith(("::descendants", "::children")) for o in src)
+                    if not over_components:
+                        continue
+                    clos = [o for a in st["args"][1:] for o in M.trace(B, a, ()) if o.kind == "aggregate" and o.rv.get("closure")]
+                    for c in clos:
+                        caps = any(o.get("k") in ("copy", "move") and any(x.kind == "arg" and x.local == l for x in M.trace(B, o, ())) for o in c.rv["ops"])
+                        if not caps:
+                            sel_bad.append(B.term(sbb).get("sp"))
+                if sel_bad:
+                    ck.violation("R3", f"{short}:namespace-not-in-predicate", sel_bad[0],
+                                 f"{short}: a component is selected by a predicate that does not look at the namespace of the reference (`{pname}`): "
+                                 f"a component with the same local name in another namespace is returned", fn=short)
+                elif captured or passed:
                     ck.ok("R3", f"{short}:namespace-used", fb["span"], f"{short}: the reference's namespace is " + ("captured by the selection predicate" if captured else "passed on"), fn=short)
                 else:
                     ck.violation("R3", f"{short}:namespace-not-in-predicate", fb["span"], f"{short}: `{pname}` is read but not by the selection predicate", fn=short)
